@@ -13,7 +13,11 @@ GENERIC = "Moments4,M4,M5,M6,M8,M10"
 E05 = "E0,E1,E2,E3,E4,E5"
 E09 = "E0,E1,E2,E3,E4,E5,E6,E7,E8,E9"
 
-MC_SEQ = {"module": "MC_Moments", "cfg": "MC_Moments_seq.cfg", "overrides": {"MaxLen": ("5", "7")}, "timeout": 3600}
+# thorough: OrderFree (which re-folds the sorted data in every state) is checked to length 5 by the
+# quick configuration; at length 7 it is implied by AlgIsDef (the definitions are symmetric)
+MC_SEQ = {"module": "MC_Moments", "cfg": "MC_Moments_seq.cfg", "timeout": 3600,
+          "overrides": {"MaxLen": ("5", "7"),
+                        "INVARIANTS": (None, "TypeOK LenExact AlgIsDef ChainIsPebay VarNonNeg MeanInRange ShortcutsSound SampleDefs Sentinels")}}
 MC_MERGE = {"module": "MC_Moments", "cfg": "MC_Moments_merge.cfg", "overrides": {"MaxLen": ("3", "4")}, "timeout": 3600}
 MC_P6 = {"module": "MC_Moments", "cfg": "MC_Moments_p6.cfg"}
 MC_P8 = {"module": "MC_Moments", "cfg": "MC_Moments_p8.cfg"}
@@ -298,6 +302,8 @@ PROPS = {
         "title": "Quantile follows the P-square algorithm exactly once five observations are in",
         "mc": [MC_Q],
         "replay": [gen_q("big", "E0,E3,E5", maxlen=("7", "8")),
+                   gen_q("big", "E0,E5", maxlen=("12", "14"), alphabet="GenAlphabet01"),
+                   {**gen_q("big", "E0", maxlen="9", alphabet="GenAlphabet012"), "skip": (True, False)},
                    {**gen_q("big", "E0", maxlen=("6", "7"), alphabet="GenAlphabetB", pset="GenPSetMore"), "skip": (True, False)},
                    {**gen_q("big", "E0", maxlen=("6", "7"), alphabet="GenAlphabetC"), "skip": (True, False)}],
         "trace": [TR_Q],
@@ -305,7 +311,7 @@ PROPS = {
                 "positions exactly, heights and quantile() within 64*n*2^-53*max|x| of the exact-rational P-square run, tie rule of "
                 "DESIGN.md 4.2; plus long sorted/reverse/zig-zag/trending/duplicate/random streams whose recorded marker positions "
                 "are validated by TLC against the position skeleton of the specification",
-        "bounds": {"quick": "L <= 7; traces of 1,000 observations x 13 shapes", "thorough": "L <= 8; alphabets {0,1,2,5} {0,3,4,9} to L <= 7, p also 1/8 7/8; traces of 20,000"},
+        "bounds": {"quick": "L <= 7 over {0,1,2,3}, L <= 12 over {0,1}; traces of 1,000 observations x 17 shapes", "thorough": "L <= 8; alphabets {0,1,2,5} {0,3,4,9} to L <= 7, p also 1/8 7/8; traces of 20,000"},
         "assumptions": ["exact P-square heights overflow TLC's 32-bit integers beyond about 9 observations: long streams are validated on the integer skeleton and the C15 invariants only",
                         "marker state is read from the public serde form (fields q, n, m)"],
     },
@@ -326,7 +332,7 @@ PROPS = {
         "technique": 'TLC invariants of Quantile.tla + replay + TLC trace validation',
         "title": "quantile estimates stay inside the data range and bookkeeping is exact",
         "mc": [MC_Q, MC_QS],
-        "replay": [gen_q("big", "E0,E3", maxlen=("7", "8")), gen_q("small", "E0,E11")],
+        "replay": [gen_q("big", "E0,E3", maxlen=("7", "8")), gen_q("big", "E0", maxlen=("12", "14"), alphabet="GenAlphabet01"), gen_q("small", "E0,E11")],
         "trace": [TR_Q],
         "rule": "len/is_empty/p()/NaN-only-when-empty/range/marker order after every observation of every enumerated stream and of "
                 "long recorded streams (validated by TLC as trace invariants); Quantile::new must panic for seven invalid p",
